@@ -67,6 +67,16 @@ unsafe_builtins = {
 # the format string at run time ('{0.__class__}'), where the AST walk cannot see them
 unsafe_methods = {'format', 'format_map'}
 
+# generator, coroutine, frame, traceback and code objects lead, through plain
+# (non-dunder) attributes, to the caller's frames and from there to the real builtins
+unsafe_attributes = {
+    'gi_frame', 'gi_code', 'gi_yieldfrom', 'gi_running', 'gi_suspended',
+    'cr_frame', 'cr_code', 'cr_await', 'cr_origin', 'cr_running', 'cr_suspended',
+    'ag_frame', 'ag_code', 'ag_await', 'ag_running',
+    'f_back', 'f_builtins', 'f_globals', 'f_locals', 'f_code', 'f_trace', 'f_lasti', 'f_lineno',
+    'tb_frame', 'tb_next', 'tb_lasti', 'tb_lineno',
+}  # fmt: skip
+
 
 class SecurityError(RuntimeError):
     """Raised when an expression or context contains unauthorized patterns."""
@@ -220,6 +230,11 @@ def _check_safe_eval_cached(
 
         if isinstance(node, ast.Attribute) and node.attr in unsafe_methods:
             raise SecurityError(f"Run-time format strings prohibited: .{node.attr}()")
+
+        if isinstance(node, ast.Attribute) and (
+            node.attr in unsafe_attributes or node.attr.startswith('co_')
+        ):
+            raise SecurityError(f"Interpreter introspection prohibited: .{node.attr}")
 
         if isinstance(node, ast.Name):
             if isinstance(node.ctx, ast.Load) and node.id not in context:
